@@ -35,6 +35,9 @@ CHECKS = {
  "C18": dict(level="other", technique="abstract interpretation of the Deref builder for arities 0..3 + term check of the borrow",
    text="The Deref/DerefMut builder is evaluated with 0, 1, 2 and 3 fields: all paths of arity 1 succeed, all paths of the other arities end in a derive_ex error (no panic path); `Target` is the field's declared type and the body is `&self.f` / `&mut self.f`, a borrow of the field place itself.",
    note="Address identity of a place borrow is language semantics.", ref="5 C18"),
+ "C11": dict(level="other", technique="abstract expansion of the Default builders; variant selection with 1..3 unrolled variants (all mark combinations); Into boundary as a decision model",
+   text="Struct: a type-level #[default(expr)] wins, otherwise every field is its own expression - wrapped in Into::<FieldTy>::into exactly when it is a string literal or a path - or <FieldTy as Default>::default(). Enum, evaluated with 1, 2 and 3 distinct symbolic variants over all combinations of #[default] marks: exactly one mark without value, or the only variant, is chosen and built the same way; no / several marks and a value on a variant mark end in a derive_ex error on every path.",
+   note="User expressions are embedded as written. `_` = no value is decided when the attribute is parsed.", ref="5 C11"),
  "C17": dict(level="other", technique="abstract interpretation + obligation extraction from the generated checker function",
    text="On every path of the Eq body builder the generated checker contains, per compared field, one call of a local function whose type parameter is bounded by Eq on the field or on its key; nothing is generated exactly for ignored and by-compared fields (compared with the reference on all 2^20 states); the checker is emitted as a function item next to the impl so that rustc type-checks it.",
    note="Relies on rustc rejecting the Eq-bounded call for non-Eq types (language semantics).", ref="5 C17"),
